@@ -10,3 +10,4 @@ func simOrderNodes([]graph.Node) {}
 
 // simYield is a no-op unless the package is built with the verif tag.
 func simYield() {}
+func simAccess(interface{}, bool, string) {}
